@@ -76,8 +76,8 @@ Record hst := mkH { h_s : ssm; h_outs : list out; h_ctr : Z; h_now : Z; h_live :
 Definition M := hst -> hst * option err.
 Definition ret : M := fun st => (st, None).
 Definition raise (e : err) : M := fun st => (st, Some e).
-Definition seq (m1 m2 : M) : M := fun st => match m1 st with (st', None) => m2 st' | r => r end.
-Notation "m1 ;; m2" := (seq m1 m2) (at level 61, right associativity).
+Definition mseq (m1 m2 : M) : M := fun st => match m1 st with (st', None) => m2 st' | r => r end.
+Notation "m1 ;; m2" := (mseq m1 m2) (at level 61, right associativity).
 Definition upd (f : ssm -> ssm) : M := fun st => (mkH (f (h_s st)) (h_outs st) (h_ctr st) (h_now st) (h_live st), None).
 Definition emit (o : out) : M := fun st => (mkH (h_s st) (o :: h_outs st) (h_ctr st) (h_now st) (h_live st), None).
 Definition withs (k : ssm -> M) : M := fun st => k (h_s st) st.
@@ -188,6 +188,21 @@ Definition client_segsize (s : ssm) : Z :=
               end
   end.
 
+(* the capability checks of ClientSSM.indication (341-370): Some reason = abort locally *)
+Definition c_refuse (s : ssm) (cnt : Z) : option Z :=
+  if 1 <? cnt then
+    if negb (can_tx (s_segsupp s)) then Some R_SEG_NOT_SUPPORTED
+    else match s_dinfo s with
+         | None => None
+         | Some d =>
+           if negb (can_rx (d_seg d)) then Some R_SEG_NOT_SUPPORTED
+           else match d_maxsegs d with
+                | None => None
+                | Some m => if m =? 0 then None else if m <? cnt then Some R_APDU_TOO_LONG else None
+                end
+         end
+  else None.
+
 (* ClientSSM.indication (298-388) *)
 Definition c_indication (a : apdu) : M :=
   if negb (a_type a =? 0) then raise RuntimeErr else
@@ -198,19 +213,7 @@ Definition c_indication (a : apdu) : M :=
     | Err e => upd (set_seg_f sz (s_segcount s)) ;; upd (set_invoke_f (a_invoke a)) ;; raise e
     | Ok cnt =>
       upd (set_seg_f sz cnt) ;; upd (set_invoke_f (a_invoke a)) ;;
-      let refuse : option Z :=
-        if 1 <? cnt then
-          if negb (can_tx (s_segsupp s)) then Some R_SEG_NOT_SUPPORTED
-          else match s_dinfo s with
-               | None => None
-               | Some d =>
-                 if negb (can_rx (d_seg d)) then Some R_SEG_NOT_SUPPORTED
-                 else match d_maxsegs d with
-                      | None => None
-                      | Some m => if m =? 0 then None else if m <? cnt then Some R_APDU_TOO_LONG else None
-                      end
-               end
-        else None in
+      let refuse := c_refuse s cnt in
       match refuse with
       | Some r => c_abort r (fun ab => emit (ToApp ab))
       | None =>
@@ -421,6 +424,16 @@ Definition server_segsize (s : ssm) : Z :=
   | Some d => match d_maxnpdu d with None => s_maxapdu s | Some mn => Z.min mn (s_maxapdu s) end
   end.
 
+(* the capability checks of ServerSSM.confirmation (818-842) *)
+Definition s_refuse (s : ssm) (cnt : Z) : option Z :=
+  if 1 <? cnt then
+    if negb (can_tx (s_segsupp s)) then Some R_SEG_NOT_SUPPORTED
+    else if negb (s_sra s) then Some R_SEG_NOT_SUPPORTED
+    else match s_maxsegs s with
+         | Some m => if m <? cnt then Some R_APDU_TOO_LONG else None
+         | None => None end
+  else None.
+
 (* ServerSSM.confirmation (762-858): the application's answer *)
 Definition s_confirmation (a : apdu) : M :=
   if a_type a =? 7 then set_state ABORTED 0 ;; emit (Tx a)
@@ -433,14 +446,7 @@ Definition s_confirmation (a : apdu) : M :=
     | Err e => upd (set_seg_f sz (s_segcount s)) ;; raise e
     | Ok cnt =>
       upd (set_seg_f sz cnt) ;;
-      let refuse : option Z :=
-        if 1 <? cnt then
-          if negb (can_tx (s_segsupp s)) then Some R_SEG_NOT_SUPPORTED
-          else if negb (s_sra s) then Some R_SEG_NOT_SUPPORTED
-          else match s_maxsegs s with
-               | Some m => if m <? cnt then Some R_APDU_TOO_LONG else None
-               | None => None end
-        else None in
+      let refuse := s_refuse s cnt in
       match refuse with
       | Some r => s_abort r (fun ab => emit (Tx ab))
       | None =>
